@@ -166,6 +166,9 @@ pub struct Harness {
     /// opstamps returned by the calls of the current transaction
     pub txn_opstamps: Vec<u64>,
     pub last_commit_opstamp: Option<u64>,
+    /// delete_all_documents was called in the current transaction (the committed segments listed in
+    /// meta.json are no longer registered with the writer: merging them would be a usage error)
+    pub delete_all_pending: bool,
 }
 
 pub fn new_writer(index: &Index, cfg: &Config) -> tantivy::Result<IndexWriter> {
@@ -185,7 +188,7 @@ impl Harness {
         };
         let index = Index::create(dir, schema, settings)?;
         let writer = new_writer(&index, cfg)?;
-        Ok(Harness { index, fields, writer: Some(writer), cfg: cfg.clone(), txn_opstamps: vec![], last_commit_opstamp: None })
+        Ok(Harness { index, fields, writer: Some(writer), cfg: cfg.clone(), txn_opstamps: vec![], last_commit_opstamp: None, delete_all_pending: false })
     }
 
     fn w(&mut self) -> &mut IndexWriter {
@@ -238,14 +241,17 @@ impl Harness {
                 self.note_opstamp(o)?;
             }
             Op::DeleteAll => {
+                self.delete_all_pending = true;
                 self.w().delete_all_documents().map_err(|e| api(e, "delete_all_documents"))?;
                 // the opstamp returned here is documented as the last commit's: not part of the increasing sequence
             }
             Op::Commit => {
+                self.delete_all_pending = false;
                 let o = self.w().commit().map_err(|e| api(e, "commit"))?;
                 self.note_commit(o, None)?;
             }
             Op::CommitPayload => {
+                self.delete_all_pending = false;
                 let payload = format!("payload-{}", model.ncommits + 1);
                 let mut pc = self.w().prepare_commit().map_err(|e| api(e, "prepare_commit"))?;
                 pc.set_payload(&payload);
@@ -253,26 +259,30 @@ impl Harness {
                 self.note_commit(o, Some(payload))?;
             }
             Op::PrepAbort => {
+                self.delete_all_pending = false;
                 let pc = self.w().prepare_commit().map_err(|e| api(e, "prepare_commit"))?;
                 pc.abort().map_err(|e| api(e, "PreparedCommit::abort"))?;
                 self.txn_opstamps.clear();
             }
             Op::Rollback => {
+                self.delete_all_pending = false;
                 self.w().rollback().map_err(|e| api(e, "rollback"))?;
                 self.txn_opstamps.clear();
             }
             Op::MergeAll => {
                 let ids: Vec<SegmentId> = self.index.searchable_segment_ids().map_err(|e| api(e, "searchable_segment_ids"))?;
-                if ids.len() >= 2 {
+                if ids.len() >= 2 && !self.delete_all_pending {
                     self.w().merge(&ids).wait().map_err(|e| api(e, "merge"))?;
                 }
             }
             Op::Reopen => {
+                self.delete_all_pending = false;
                 self.writer = None;
                 self.writer = Some(new_writer(&self.index, &self.cfg).map_err(|e| api(e, "writer (reopen)"))?);
                 self.txn_opstamps.clear();
             }
             Op::WaitMergeReopen => {
+                self.delete_all_pending = false;
                 let w = self.writer.take().unwrap();
                 w.wait_merging_threads().map_err(|e| api(e, "wait_merging_threads"))?;
                 self.writer = Some(new_writer(&self.index, &self.cfg).map_err(|e| api(e, "writer (reopen)"))?);
